@@ -232,8 +232,7 @@ theorem deprecated_no_assert (rep : Bool) (fmt : Fmt) (v : Dy) (h : FixOk fmt) :
 theorem deprecated_twos_complement (fmt : Fmt) (v : Dy) (h : FixOk fmt) (h53 : nInt fmt ≤ 53)
     (hv : FiniteScaled fmt v) :
     floatToFix fmt v = (floatToFp fmt v).map (· % 2 ^ fmt.bits) := by
-  have hn : nInt fmt < 65 := by omega
-  obtain ⟨f1, f2, f3, f4⟩ := bound_facts (nInt fmt) hn
+  obtain ⟨f1, f2, f3, f4⟩ := bound_facts (nInt fmt)
   obtain ⟨e1, e2⟩ := maxV_eq fmt h.bits1
   rw [fp_total fmt v h.fmtOk hv]
   unfold floatToFix
@@ -242,12 +241,12 @@ theorem deprecated_twos_complement (fmt : Fmt) (v : Dy) (h : FixOk fmt) (h53 : n
   rw [f4 h53, ← e1]
   rfl
 
-/-- for the repaired code the same holds for every width up to 64 bits -/
+/-- for the repaired code the same holds for every width the constructor accepts
+(`FixOk`: n_int <= 1023; from n_int = 1024 on `validate_fp_params` raises OverflowError) -/
 theorem deprecated_twos_complement_repaired (fmt : Fmt) (v : Dy) (h : FixOk fmt)
     (hv : FiniteScaled fmt v) :
     floatToFixRepaired fmt v = (floatToFp fmt v).map (· % 2 ^ fmt.bits) := by
-  have hn : nInt fmt < 65 := by have := h.bits64; unfold nInt; split <;> omega
-  obtain ⟨f1, f2, f3, f4⟩ := bound_facts (nInt fmt) hn
+  obtain ⟨f1, f2, f3, f4⟩ := bound_facts (nInt fmt)
   obtain ⟨e1, e2⟩ := maxV_eq fmt h.bits1
   have hm := minV_nonpos fmt
   have hM := maxV_nonneg fmt
@@ -269,6 +268,16 @@ theorem deprecated64_defect :
     floatToFix ⟨false, 64, 0⟩ ⟨1, 100⟩ = .ok 0 ∧
     floatToFp ⟨false, 64, 0⟩ ⟨1, 100⟩ = .ok (2 ^ 64 - 1) ∧
     ¬ SpecFix ⟨true, 64, 0⟩ ⟨1, 100⟩ (2 ^ 63) := by decide +kernel
+
+/-- the deprecated constructors beyond the accepted range: OverflowError (n_int >= 1024) -/
+theorem deprecated_wide_rejected :
+    validate ⟨false, 1024, 0⟩ = .error .overflowFloat ∧ validate ⟨true, 1025, 3⟩ = .error .overflowFloat ∧
+    (validate ⟨true, 1024, 1023⟩).toBool = true ∧ (validate ⟨false, 1023, 0⟩).toBool = true := by
+  decide +kernel
+
+/-- wide formats satisfy the hypotheses (128-bit S63.64, 1023-bit unsigned) -/
+example : FixOk ⟨true, 128, 64⟩ ∧ FixOk ⟨false, 1023, 1000⟩ ∧ FiniteScaled ⟨true, 128, 64⟩ ⟨1, 100⟩ :=
+  ⟨⟨by decide, by decide, by decide, by decide⟩, ⟨by decide, by decide, by decide, by decide⟩, by decide +kernel⟩
 
 example : FixOk ⟨true, 16, 5⟩ ∧ nInt ⟨true, 16, 5⟩ ≤ 53 ∧ FiniteScaled ⟨true, 16, 5⟩ ⟨-12345, -7⟩ :=
   ⟨⟨by decide, by decide, by decide, by decide⟩, by decide, by decide +kernel⟩
@@ -292,7 +301,8 @@ theorem fix_to_float_eq (fmt : Fmt) (w : Nat) (h : FixOk fmt) (hw : w < 2 ^ fmt.
       cases fmt.signed <;> simp [ht, hge']
   have a : ¬ (1024 ≤ -fmt.frac) := by have := h.frac0; omega
   have b : ¬ (-fmt.frac < -1074) := by
-    have h1 := h.fracLe; have := h.bits64; split at h1 <;> omega
+    have h1 := h.fracLe; have hb := h.bitsLe
+    cases hs : fmt.signed <;> simp [hs] at h1 hb <;> omega
   unfold fixToFloat fpToFloat pow2f
   rw [validate_ok fmt h]
   simp only [bind, Except.bind, a, b, if_false, hv, mulScale]
